@@ -90,7 +90,7 @@ structure Level (dag : Dag) (np fuel : Nat) (f : Node) : Prop where
   npart : f.npart = np
   nonempty : f.members ≠ []
   member : ∀ m ∈ f.members, m < f.name ∧ ∃ mn, getNode dag m = some mn ∧ mn.blockwise = true ∧ mn.name = m ∧
-    (mn.npart = np ∨ mn.npart = 1) ∧ (mn.members ≠ [] → levelOK dag mn.npart fuel mn = true)
+    (mn.members ≠ [] → levelOK dag np fuel mn = true)
   head : ∃ rn, getNode dag (f.members.headD 0) = some rn ∧ rn.npart = np
   deps_out : ∀ d ∈ f.deps, d ∉ inner dag (fuel+1) f ∧ d ≠ f.name
 
@@ -108,8 +108,8 @@ theorem levelOK_spec {dag : Dag} {np fuel : Nat} {f : Node} (h : levelOK dag np 
     cases hg : getNode dag m with
     | none => simp [hg] at hrest
     | some mn =>
-      simp only [hg, Bool.and_eq_true, Bool.or_eq_true, beq_iff_eq] at hrest
-      refine ⟨mn, rfl, hrest.1.1.1, hrest.1.1.2, hrest.1.2, ?_⟩
+      simp only [hg, Bool.and_eq_true, beq_iff_eq] at hrest
+      refine ⟨mn, rfl, hrest.1.1, hrest.1.2, ?_⟩
       intro hne'
       have := hrest.2
       rw [if_pos hne'] at this
@@ -122,43 +122,21 @@ theorem levelOK_spec {dag : Dag} {np fuel : Nat} {f : Node} (h : levelOK dag np 
   · intro d hd
     exact hdeps d hd
 
-/-- the index a (sub)group with partition count `np` is entered with, given the partition `index` of
-    the outermost group: 0 for a one-partition group -/
-def Eff (np idx index : Nat) : Prop := idx = (if np == 1 then 0 else index)
-
-theorem ixOf_eff {nd : Node} {np idx index : Nat} (he : Eff np idx index) (h : nd.npart = np ∨ nd.npart = 1) :
-    ixOf nd idx = ixOf nd index := by
-  unfold ixOf
-  unfold Eff at he
-  by_cases h1 : nd.npart = 1
-  · simp [h1]
-  · rcases h with h | h
-    · have : np ≠ 1 := h ▸ h1
-      simp [h1, this] at he ⊢
-      exact he
-    · exact absurd h h1
-
-theorem eff_nested {nd : Node} {np idx index : Nat} (he : Eff np idx index) (h : nd.npart = np ∨ nd.npart = 1) :
-    Eff nd.npart (ixOf nd idx) index := by
-  rw [ixOf_eff he h]
-  unfold Eff ixOf
-  rfl
-
 /-! ### the writes other than the placeholders -/
 
-def coreWrites (dag : Dag) : Nat → Nat → Node → List (FKey × Tsk FKey)
-  | 0, _, _ => []
-  | fuel+1, index, f =>
+def coreWrites (dag : Dag) (index : Nat) : Nat → Node → List (FKey × Tsk FKey)
+  | 0, _ => []
+  | fuel+1, f =>
     [(FKey.top f.name, Tsk.alias (FKey.part (f.members.headD 0) index))] ++
-    f.members.flatMap (blockOf dag index (fun i m => coreWrites dag fuel i m))
+    f.members.flatMap (blockOf dag index (fun m => coreWrites dag index fuel m))
 
-theorem core_noPh (dag : Dag) : ∀ (fuel index : Nat) (f : Node),
-    ∀ w ∈ coreWrites dag fuel index f, isPh w.2 = false := by
+theorem core_noPh (dag : Dag) (index : Nat) : ∀ (fuel : Nat) (f : Node),
+    ∀ w ∈ coreWrites dag index fuel f, isPh w.2 = false := by
   intro fuel
   induction fuel with
-  | zero => intro index f w hw; simp [coreWrites] at hw
+  | zero => intro f w hw; simp [coreWrites] at hw
   | succ fuel ih =>
-    intro index f w hw
+    intro f w hw
     simp only [coreWrites, List.mem_append, List.mem_singleton, List.mem_flatMap] at hw
     rcases hw with rfl | ⟨m, _, hw⟩
     · rfl
@@ -170,7 +148,7 @@ theorem core_noPh (dag : Dag) : ∀ (fuel index : Nat) (f : Node),
         by_cases hne : mn.members ≠ []
         · rw [if_pos hne] at hw
           rcases List.mem_append.mp hw with hw | hw
-          · exact ih _ mn w hw
+          · exact ih mn w hw
           · simp only [List.mem_singleton] at hw; subst hw; rfl
         · rw [if_neg hne] at hw
           simp only [List.mem_singleton] at hw; subst hw; rfl
@@ -182,26 +160,26 @@ theorem ph_isPh (dag : Dag) (f : Node) (index : Nat) : ∀ w ∈ phWrites dag f 
   obtain ⟨⟨j, d⟩, _, rfl⟩ := hw
   rfl
 
-theorem filter_core (dag : Dag) : ∀ (fuel index : Nat) (f : Node),
-    (fusedWrites dag fuel index f).filter (fun w => !isPh w.2) = coreWrites dag fuel index f := by
+theorem filter_core (dag : Dag) (index : Nat) : ∀ (fuel : Nat) (f : Node),
+    (fusedWrites dag index fuel f).filter (fun w => !isPh w.2) = coreWrites dag index fuel f := by
   intro fuel
   induction fuel with
-  | zero => intro index f; rfl
+  | zero => intro f; rfl
   | succ fuel ih =>
-    intro index f
-    have hfun : (fun i m => (fusedWrites dag fuel i m).filter (fun w => !isPh w.2)) =
-        (fun i m => coreWrites dag fuel i m) := funext (fun i => funext (ih i))
+    intro f
+    have hfun : (fun m => (fusedWrites dag index fuel m).filter (fun w => !isPh w.2)) =
+        (fun m => coreWrites dag index fuel m) := funext ih
     simp only [fusedWrites, hfun]
     rw [List.filter_append]
     have h1 : ([(FKey.top f.name, Tsk.alias (FKey.part (f.members.headD 0) index))] ++
-        f.members.flatMap (blockOf dag index (fun i m => coreWrites dag fuel i m))).filter (fun w => !isPh w.2) =
-        coreWrites dag (fuel+1) index f := by
-      have hX : coreWrites dag (fuel+1) index f =
+        f.members.flatMap (blockOf dag index (fun m => coreWrites dag index fuel m))).filter (fun w => !isPh w.2) =
+        coreWrites dag index (fuel+1) f := by
+      have hX : coreWrites dag index (fuel+1) f =
           [(FKey.top f.name, Tsk.alias (FKey.part (f.members.headD 0) index))] ++
-            f.members.flatMap (blockOf dag index (fun i m => coreWrites dag fuel i m)) := rfl
+            f.members.flatMap (blockOf dag index (fun m => coreWrites dag index fuel m)) := rfl
       rw [hX, List.filter_eq_self]
       intro w hw
-      have := core_noPh dag (fuel+1) index f w (hX ▸ hw)
+      have := core_noPh dag index (fuel+1) f w (hX ▸ hw)
       simp [this]
     have h2 : (phWrites dag f index).filter (fun w => !isPh w.2) = [] := by
       rw [List.filter_eq_nil_iff]
@@ -211,40 +189,37 @@ theorem filter_core (dag : Dag) : ∀ (fuel index : Nat) (f : Node),
 
 /-- the dict = the core writes followed by this group's own placeholders -/
 theorem writes_succ (dag : Dag) (index : Nat) (fuel : Nat) (f : Node) :
-    fusedWrites dag (fuel+1) index f = coreWrites dag (fuel+1) index f ++ phWrites dag f index := by
-  have hfun : (fun i m => (fusedWrites dag fuel i m).filter (fun w => !isPh w.2)) =
-      (fun i m => coreWrites dag fuel i m) := funext (fun i => funext (filter_core dag fuel i))
+    fusedWrites dag index (fuel+1) f = coreWrites dag index (fuel+1) f ++ phWrites dag f index := by
+  have hfun : (fun m => (fusedWrites dag index fuel m).filter (fun w => !isPh w.2)) =
+      (fun m => coreWrites dag index fuel m) := funext (filter_core dag index fuel)
   simp only [fusedWrites, coreWrites, hfun]
 
-/-- what a key is bound to, as a function of the key alone (and of the outermost partition `index`) -/
+/-- what a key is bound to, as a function of the key alone -/
 def expectedTask (dag : Dag) (index : Nat) : FKey → Option (Tsk FKey)
-  | .top n => (getNode dag n).map (fun nd => Tsk.alias (FKey.part (nd.members.headD 0) (ixOf nd index)))
+  | .top n => (getNode dag n).map (fun nd => Tsk.alias (FKey.part (nd.members.headD 0) index))
   | .part x i =>
     match getNode dag x with
     | some nd => if nd.members ≠ [] then some (Tsk.alias (FKey.top x)) else some (plainTask dag nd i)
     | none => none
   | .ph _ => none
 
-theorem core_expected (dag : Dag) (index : Nat) : ∀ (fuel np idx : Nat) (f : Node), levelOK dag np fuel f = true →
-    Eff np idx index → getNode dag f.name = some f →
-    ∀ w ∈ coreWrites dag fuel idx f, expectedTask dag index w.1 = some w.2 := by
+theorem core_expected (dag : Dag) (index np : Nat) : ∀ (fuel : Nat) (f : Node), levelOK dag np fuel f = true →
+    getNode dag f.name = some f → ∀ w ∈ coreWrites dag index fuel f, expectedTask dag index w.1 = some w.2 := by
   intro fuel
   induction fuel with
-  | zero => intro np idx f h; simp [levelOK] at h
+  | zero => intro f h; simp [levelOK] at h
   | succ fuel ih =>
-    intro np idx f h he hself w hw
+    intro f h hself w hw
     have L := levelOK_spec h
     simp only [coreWrites, List.mem_append, List.mem_singleton, List.mem_flatMap] at hw
     rcases hw with rfl | ⟨m, hm, hw⟩
-    · have : ixOf f index = idx := by
-        unfold ixOf; unfold Eff at he; rw [L.npart]; exact he.symm
-      simp [expectedTask, hself, this]
-    · obtain ⟨_, mn, hg, _, hname, hnp, hnest⟩ := L.member m hm
+    · simp [expectedTask, hself]
+    · obtain ⟨_, mn, hg, _, hname, hnest⟩ := L.member m hm
       simp only [blockOf, hg] at hw
       by_cases hne : mn.members ≠ []
       · rw [if_pos hne] at hw
         rcases List.mem_append.mp hw with hw | hw
-        · exact ih mn.npart _ mn (hnest hne) (eff_nested he hnp) (by rw [hname]; exact hg) w hw
+        · exact ih mn (hnest hne) (by rw [hname]; exact hg) w hw
         · simp only [List.mem_singleton] at hw; subst hw
           simp only [expectedTask, hname, hg]
           rw [if_pos hne]
@@ -254,23 +229,23 @@ theorem core_expected (dag : Dag) (index : Nat) : ∀ (fuel np idx : Nat) (f : N
         rw [if_neg hne]
 
 /-- names inside a fused node are smaller than its own -/
-theorem inner_lt (dag : Dag) : ∀ (fuel np : Nat) (f : Node), levelOK dag np fuel f = true →
+theorem inner_lt (dag : Dag) (np : Nat) : ∀ (fuel : Nat) (f : Node), levelOK dag np fuel f = true →
     ∀ x ∈ inner dag fuel f, x < f.name := by
   intro fuel
   induction fuel with
-  | zero => intro np f h; simp [levelOK] at h
+  | zero => intro f h; simp [levelOK] at h
   | succ fuel ih =>
-    intro np f h x hx
+    intro f h x hx
     have L := levelOK_spec h
     simp only [inner, List.mem_flatMap, List.mem_cons] at hx
     obtain ⟨m, hm, hx⟩ := hx
-    obtain ⟨hlt, mn, hg, _, hname, _, hnest⟩ := L.member m hm
+    obtain ⟨hlt, mn, hg, _, hname, hnest⟩ := L.member m hm
     rcases hx with rfl | hx
     · exact hlt
     · simp only [hg] at hx
       by_cases hne : mn.members ≠ []
       · rw [if_pos hne] at hx
-        have := ih _ mn (hnest hne) x hx
+        have := ih mn (hnest hne) x hx
         rw [hname] at this
         omega
       · rw [if_neg hne] at hx; cases hx
@@ -342,19 +317,19 @@ theorem argKey_name (dag : Dag) (c : Node) (i d : Nat) : ∃ j, argKey dag c i d
   | some dn => exact ⟨_, rfl⟩
 
 /-- keys of the core writes: `top _`, or `part x _` with `x` inside `f` -/
-theorem core_keys (dag : Dag) : ∀ (fuel np idx : Nat) (f : Node), levelOK dag np fuel f = true →
-    ∀ w ∈ coreWrites dag fuel idx f,
+theorem core_keys (dag : Dag) (index np : Nat) : ∀ (fuel : Nat) (f : Node), levelOK dag np fuel f = true →
+    ∀ w ∈ coreWrites dag index fuel f,
       (∃ n, w.1 = FKey.top n) ∨ (∃ x i, w.1 = FKey.part x i ∧ x ∈ inner dag fuel f) := by
   intro fuel
   induction fuel with
-  | zero => intro np idx f h; simp [levelOK] at h
+  | zero => intro f h; simp [levelOK] at h
   | succ fuel ih =>
-    intro np idx f h w hw
+    intro f h w hw
     have L := levelOK_spec h
     simp only [coreWrites, List.mem_append, List.mem_singleton, List.mem_flatMap] at hw
     rcases hw with rfl | ⟨m, hm, hw⟩
     · exact Or.inl ⟨_, rfl⟩
-    · obtain ⟨_, mn, hg, _, hname, _, hnest⟩ := L.member m hm
+    · obtain ⟨_, mn, hg, _, hname, hnest⟩ := L.member m hm
       have hin : ∀ x, (x = m ∨ (mn.members ≠ [] ∧ x ∈ inner dag fuel mn)) → x ∈ inner dag (fuel+1) f := by
         intro x hx
         simp only [inner, List.mem_flatMap, List.mem_cons]
@@ -366,41 +341,34 @@ theorem core_keys (dag : Dag) : ∀ (fuel np idx : Nat) (f : Node), levelOK dag 
       by_cases hne : mn.members ≠ []
       · rw [if_pos hne] at hw
         rcases List.mem_append.mp hw with hw | hw
-        · rcases ih _ _ mn (hnest hne) w hw with h1 | ⟨x, i, h1, h2⟩
+        · rcases ih mn (hnest hne) w hw with h1 | ⟨x, i, h1, h2⟩
           · exact Or.inl h1
           · exact Or.inr ⟨x, i, h1, hin x (Or.inr ⟨hne, h2⟩)⟩
         · simp only [List.mem_singleton] at hw; subst hw
-          exact Or.inr ⟨mn.name, _, rfl, hin _ (Or.inl hname)⟩
+          exact Or.inr ⟨mn.name, index, rfl, hin _ (Or.inl hname)⟩
       · rw [if_neg hne] at hw
         simp only [List.mem_singleton] at hw; subst hw
         exact Or.inr ⟨mn.name, _, rfl, hin _ (Or.inl hname)⟩
 
-theorem eff_top {np index : Nat} (hi : index < np) : Eff np index index := by
-  unfold Eff
-  by_cases h : np = 1
-  · have : index = 0 := by omega
-    simp [h, this]
-  · simp [h]
-
 /-- a key written by the core is bound, in the finished dict, to what the key determines -/
 theorem fused_lookup (dag : Dag) (index : Nat) (fuel : Nat) (f : Node)
-    (h : levelOK dag f.npart (fuel+1) f = true) (hi : index < f.npart) (hself : getNode dag f.name = some f)
-    (w : FKey × Tsk FKey) (hw : w ∈ coreWrites dag (fuel+1) index f) :
-    lastWrite (fusedWrites dag (fuel+1) index f) w.1 = some w.2 := by
+    (h : levelOK dag f.npart (fuel+1) f = true) (hself : getNode dag f.name = some f)
+    (w : FKey × Tsk FKey) (hw : w ∈ coreWrites dag index (fuel+1) f) :
+    lastWrite (fusedWrites dag index (fuel+1) f) w.1 = some w.2 := by
   have L := levelOK_spec h
   rw [writes_succ]
   rw [lastWrite_append_left]
   · apply lastWrite_all _ _ _ ⟨w, hw, rfl⟩
     intro b hb hk
-    have e1 := core_expected dag index (fuel+1) f.npart index f h (eff_top hi) hself b hb
-    have e2 := core_expected dag index (fuel+1) f.npart index f h (eff_top hi) hself w hw
+    have e1 := core_expected dag index f.npart (fuel+1) f h hself b hb
+    have e2 := core_expected dag index f.npart (fuel+1) f h hself w hw
     rw [hk, e2] at e1
     exact (Option.some.inj e1).symm
   · intro b hb heq
     obtain ⟨d, hd, hk⟩ := phWrites_key hb
     obtain ⟨j, hj⟩ := argKey_name dag f index d
     rw [hk, hj] at heq
-    rcases core_keys dag (fuel+1) f.npart index f h w hw with ⟨n, h1⟩ | ⟨x, i, h1, h2⟩
+    rcases core_keys dag index f.npart (fuel+1) f h w hw with ⟨n, h1⟩ | ⟨x, i, h1, h2⟩
     · rw [h1] at heq; cases heq
     · rw [h1] at heq
       simp only [FKey.part.injEq] at heq
@@ -500,44 +468,45 @@ theorem ph_lookup (dag : Dag) (f : Node) (index : Nat) (A : List (FKey × Tsk FK
       rw [List.getElem?_map, hget]
       simp [hk]
 
-theorem core_noph_key (dag : Dag) (np idx : Nat) (fuel : Nat) (f : Node) (h : levelOK dag np fuel f = true) :
-    ∀ w ∈ coreWrites dag fuel idx f, ∀ j, w.1 ≠ FKey.ph j := by
+theorem core_noph_key (dag : Dag) (index np : Nat) (fuel : Nat) (f : Node) (h : levelOK dag np fuel f = true) :
+    ∀ w ∈ coreWrites dag index fuel f, ∀ j, w.1 ≠ FKey.ph j := by
   intro w hw j hj
-  rcases core_keys dag fuel np idx f h w hw with ⟨n, h1⟩ | ⟨x, i, h1, _⟩
+  rcases core_keys dag index np fuel f h w hw with ⟨n, h1⟩ | ⟨x, i, h1, _⟩
   · rw [h1] at hj; cases hj
   · rw [h1] at hj; cases hj
 
 /-! ### which keys the core writes -/
 
-theorem flat_core (dag : Dag) (index : Nat) : ∀ (fuel np idx : Nat) (f : Node), levelOK dag np fuel f = true →
-    Eff np idx index →
-    ∀ m ∈ flat dag fuel f, ∀ mn, getNode dag m = some mn →
-      (FKey.part mn.name (ixOf mn index), plainTask dag mn (ixOf mn index)) ∈ coreWrites dag fuel idx f := by
+theorem flat_core (dag : Dag) (index : Nat) : ∀ (fuel : Nat) (f : Node),
+    ∀ m ∈ flat dag fuel f, ∀ mn, getNode dag m = some mn → plainWrite dag mn index ∈ coreWrites dag index fuel f := by
   intro fuel
   induction fuel with
-  | zero => intro np idx f h; simp [levelOK] at h
+  | zero => intro f m hm; simp [flat] at hm
   | succ fuel ih =>
-    intro np idx f h he m hm mn hg
-    have L := levelOK_spec h
+    intro f m hm mn hg
     simp only [flat, List.mem_flatMap] at hm
     obtain ⟨m', hm', hx⟩ := hm
-    obtain ⟨_, mn', hg', _, _, hnp, hnest⟩ := L.member m' hm'
     simp only [coreWrites, List.mem_append, List.mem_singleton, List.mem_flatMap]
     right
     refine ⟨m', hm', ?_⟩
-    simp only [hg'] at hx
-    simp only [blockOf, hg']
-    by_cases hne : mn'.members ≠ []
-    · rw [if_pos hne] at hx
-      rw [if_pos hne]
-      exact List.mem_append.mpr (Or.inl (ih _ _ mn' (hnest hne) (eff_nested he hnp) m hx mn hg))
-    · rw [if_neg hne] at hx
-      rw [if_neg hne]
-      simp only [List.mem_singleton] at hx
+    cases hg' : getNode dag m' with
+    | none =>
+      simp only [hg', List.mem_singleton] at hx
       subst hx
       rw [hg] at hg'; cases hg'
-      simp only [List.mem_singleton, plainWrite]
-      rw [ixOf_eff he hnp]
+    | some mn' =>
+      simp only [hg'] at hx
+      simp only [blockOf, hg']
+      by_cases hne : mn'.members ≠ []
+      · rw [if_pos hne] at hx
+        rw [if_pos hne]
+        exact List.mem_append.mpr (Or.inl (ih mn' m hx mn hg))
+      · rw [if_neg hne] at hx
+        rw [if_neg hne]
+        simp only [List.mem_singleton] at hx
+        subst hx
+        rw [hg] at hg'; cases hg'
+        simp
 
 /-- facts about the first member of a well-formed level -/
 theorem head_info (dag : Dag) (np fuel : Nat) (f : Node) (h : levelOK dag np (fuel+1) f = true) :
@@ -551,7 +520,7 @@ theorem head_info (dag : Dag) (np fuel : Nat) (f : Node) (h : levelOK dag np (fu
     | cons a t => exact ⟨a, t, rfl⟩
   have hr : f.members.headD 0 = r := by rw [hm]; rfl
   rw [hr]
-  obtain ⟨hlt, mn, hg, _, _, _, _⟩ := L.member r (by rw [hm]; simp)
+  obtain ⟨hlt, mn, hg, _, _, _⟩ := L.member r (by rw [hm]; simp)
   refine ⟨hlt, ?_, ?_⟩
   · simp only [flat, nested, hm, List.flatMap_cons, hg, List.mem_append]
     by_cases hne : mn.members ≠ []
@@ -562,38 +531,36 @@ theorem head_info (dag : Dag) (np fuel : Nat) (f : Node) (h : levelOK dag np (fu
     exact ⟨rn, hgr, hnp⟩
 
 /-- facts about a nested group (any level) of a well-formed node -/
-structure NestedInfo (dag : Dag) (index : Nat) (core : List (FKey × Tsk FKey)) (S Fs : List Nat)
+structure NestedInfo (dag : Dag) (index np : Nat) (core : List (FKey × Tsk FKey)) (S Fs : List Nat)
     (F : Nat) (Fn : Node) : Prop where
   node : getNode dag F = some Fn
   fused : Fn.members ≠ []
-  top_write : (FKey.top F, Tsk.alias (FKey.part (Fn.members.headD 0) (ixOf Fn index))) ∈ core
-  alias_write : (FKey.part F (ixOf Fn index), Tsk.alias (FKey.top F)) ∈ core
+  npart : Fn.npart = np
+  top_write : (FKey.top F, Tsk.alias (FKey.part (Fn.members.headD 0) index)) ∈ core
+  alias_write : (FKey.part F index, Tsk.alias (FKey.top F)) ∈ core
   head_lt : Fn.members.headD 0 < F
   head_in : Fn.members.headD 0 ∈ S ∨ Fn.members.headD 0 ∈ Fs
-  head_np : ∃ rn, getNode dag (Fn.members.headD 0) = some rn ∧ rn.npart = Fn.npart
+  head_np : ∃ rn, getNode dag (Fn.members.headD 0) = some rn ∧ rn.npart = np
 
-theorem nested_info (dag : Dag) (index : Nat) : ∀ (fuel np idx : Nat) (f : Node), levelOK dag np fuel f = true →
-    Eff np idx index →
-    ∀ F ∈ nested dag fuel f, ∃ Fn, NestedInfo dag index (coreWrites dag fuel idx f)
+theorem nested_info (dag : Dag) (index np : Nat) : ∀ (fuel : Nat) (f : Node), levelOK dag np fuel f = true →
+    ∀ F ∈ nested dag fuel f, ∃ Fn, NestedInfo dag index np (coreWrites dag index fuel f)
       (flat dag fuel f) (nested dag fuel f) F Fn := by
   intro fuel
   induction fuel with
-  | zero => intro np idx f h; simp [levelOK] at h
+  | zero => intro f h; simp [levelOK] at h
   | succ fuel ih =>
-    intro np idx f h he F hF
+    intro f h F hF
     have L := levelOK_spec h
     simp only [nested, List.mem_flatMap] at hF
     obtain ⟨m, hm, hF⟩ := hF
-    obtain ⟨_, mn, hg, _, hname, hnp, hnest⟩ := L.member m hm
+    obtain ⟨_, mn, hg, _, hname, hnest⟩ := L.member m hm
     simp only [hg] at hF
     by_cases hne : mn.members ≠ []
     · rw [if_pos hne] at hF
       have hlm := hnest hne
-      have hem := eff_nested he hnp
       -- everything of the nested node `mn` is part of `f`
-      have hcore : ∀ w, w ∈ coreWrites dag fuel (ixOf mn idx) mn ∨
-          w = (FKey.part mn.name (ixOf mn idx), Tsk.alias (FKey.top mn.name)) →
-          w ∈ coreWrites dag (fuel+1) idx f := by
+      have hcore : ∀ w, w ∈ coreWrites dag index fuel mn ∨ w = (FKey.part mn.name index, Tsk.alias (FKey.top mn.name)) →
+          w ∈ coreWrites dag index (fuel+1) f := by
         intro w hw
         simp only [coreWrites, List.mem_append, List.mem_singleton, List.mem_flatMap]
         right
@@ -620,19 +587,19 @@ theorem nested_info (dag : Dag) (index : Nat) : ∀ (fuel np idx : Nat) (f : Nod
         cases fuel with
         | zero => simp [levelOK] at hlm
         | succ fuel' =>
-          obtain ⟨hhlt, hhin, hhnp⟩ := head_info dag mn.npart fuel' mn hlm
-          have hix : ixOf mn idx = ixOf mn index := ixOf_eff he hnp
-          refine ⟨mn, hg, hne, ?_, ?_, ?_, ?_, hhnp⟩
+          have Lm := levelOK_spec hlm
+          obtain ⟨hhlt, hhin, hhnp⟩ := head_info dag np fuel' mn hlm
+          refine ⟨mn, hg, hne, Lm.npart, ?_, ?_, ?_, ?_, hhnp⟩
           · apply hcore; left
             simp only [coreWrites, List.mem_append, List.mem_singleton]
-            left; rw [hname, hix]
-          · apply hcore; right; rw [hname, hix]
+            left; rw [hname]
+          · apply hcore; right; rw [hname]
           · rw [hname] at hhlt; exact hhlt
           · rcases hhin with h1 | h1
             · exact Or.inl (hflat _ h1)
             · exact Or.inr (hnested _ (Or.inr h1))
-      · obtain ⟨Fn, I⟩ := ih _ _ mn hlm hem F hF
-        refine ⟨Fn, I.node, I.fused, hcore _ (Or.inl I.top_write), hcore _ (Or.inl I.alias_write),
+      · obtain ⟨Fn, I⟩ := ih mn hlm F hF
+        refine ⟨Fn, I.node, I.fused, I.npart, hcore _ (Or.inl I.top_write), hcore _ (Or.inl I.alias_write),
           I.head_lt, ?_, I.head_np⟩
         rcases I.head_in with h1 | h1
         · exact Or.inl (hflat _ h1)
@@ -720,9 +687,6 @@ theorem argKey_nested {dag : Dag} {f mn dn : Node} {d index : Nat} (hg : getNode
         simp [h1, this]
       · simp [h1]
 
-theorem ixOf_npart {a b : Node} (h : a.npart = b.npart) (index : Nat) : ixOf a index = ixOf b index := by
-  unfold ixOf; rw [h]
-
 theorem ixOf_full {nd : Node} {np index : Nat} (h : nd.npart = np) (hi : index < np) : ixOf nd index = index := by
   unfold ixOf
   by_cases h1 : nd.npart = 1
@@ -738,20 +702,20 @@ theorem members_eval (I : Interp) (dag : Dag) (f : Node) (index : Nat) (S Fs : L
     (hk : f.kall = true) (hi : index < f.npart)
     (hg : ∀ m ∈ S, ∀ mn, getNode dag m = some mn →
       g (FKey.part m (ixOf mn index)) = some (plainTask dag mn (ixOf mn index)))
-    (hFs : ∀ F ∈ Fs, ∃ Fn, getNode dag F = some Fn ∧ Fn.members ≠ [] ∧
-      g (FKey.part F (ixOf Fn index)) = some (Tsk.alias (FKey.top F)) ∧
-      g (FKey.top F) = some (Tsk.alias (FKey.part (Fn.members.headD 0) (ixOf Fn index))) ∧
+    (hFs : ∀ F ∈ Fs, ∃ Fn, getNode dag F = some Fn ∧ Fn.members ≠ [] ∧ Fn.npart = f.npart ∧
+      g (FKey.part F index) = some (Tsk.alias (FKey.top F)) ∧
+      g (FKey.top F) = some (Tsk.alias (FKey.part (Fn.members.headD 0) index)) ∧
       Fn.members.headD 0 < F ∧ (Fn.members.headD 0 ∈ S ∨ Fn.members.headD 0 ∈ Fs) ∧
-      ∃ rn, getNode dag (Fn.members.headD 0) = some rn ∧ rn.npart = Fn.npart)
+      ∃ rn, getNode dag (Fn.members.headD 0) = some rn ∧ rn.npart = f.npart)
     (hext : ∀ d ∈ f.deps, ¬ (d ∈ S ∨ d ∈ Fs) → ∀ N, 1 ≤ N →
       run I g inp N (argKey dag f index d) = ev (argKey dag f index d)) :
     ∀ (n : Nat),
       (∀ m ∈ S, m < n → ∀ mn, getNode dag m = some mn → ∀ N N', 2 * n + 1 ≤ N → n ≤ N' →
         run I g inp N (FKey.part m (ixOf mn index)) =
           run I (memberGraph dag S Fs) (fun k => some (ev k)) N' (FKey.part m (ixOf mn index))) ∧
-      (∀ F ∈ Fs, F < n → ∀ Fn, getNode dag F = some Fn → ∀ N N', 2 * n + 1 ≤ N → n ≤ N' →
-        run I g inp N (FKey.part F (ixOf Fn index)) =
-          run I (memberGraph dag S Fs) (fun k => some (ev k)) N' (FKey.part F (ixOf Fn index))) := by
+      (∀ F ∈ Fs, F < n → ∀ N N', 2 * n + 1 ≤ N → n ≤ N' →
+        run I g inp N (FKey.part F index) =
+          run I (memberGraph dag S Fs) (fun k => some (ev k)) N' (FKey.part F index)) := by
   intro n
   induction n with
   | zero => exact ⟨fun m _ hlt => by omega, fun F _ hlt => by omega⟩
@@ -790,9 +754,11 @@ theorem members_eval (I : Interp) (dag : Dag) (f : Node) (index : Nat) (S Fs : L
         have hdm := hin (Or.inl hdS)
         exact ihS d hdS (by omega) dn hgd N1 N1' (by omega) (by omega)
       · by_cases hdF : d ∈ Fs
-        · rw [argKey_member hgd hwf]
+        · obtain ⟨Fn, hgF, _, hFnp, _⟩ := hFs d hdF
+          rw [hgd] at hgF; cases hgF
+          rw [argKey_nested hgd hFnp hi hwf]
           have hdm := hin (Or.inr hdF)
-          exact ihF d hdF (by omega) dn hgd N1 N1' (by omega) (by omega)
+          exact ihF d hdF (by omega) N1 N1' (by omega) (by omega)
         · have hno : ¬ (d ∈ S ∨ d ∈ Fs) := fun h => h.elim hdS hdF
           rw [argKey_external hgd hk hwf]
           rw [hext d (hout hno) hno N1 (by omega)]
@@ -802,24 +768,23 @@ theorem members_eval (I : Interp) (dag : Dag) (f : Node) (index : Nat) (S Fs : L
             simp only [memberGraph, hdS, hdF, if_false]
           rw [run_undefined I _ _ _ hnone]
           rfl
-    · intro F hF hlt Fn0 hgF0 N N' hN hN'
-      obtain ⟨Fn, hgF, hne, hg1, hg2, hrlt, hrin, rn, hgr, hrnp⟩ := hFs F hF
-      have hsame : Fn = Fn0 := by rw [hgF] at hgF0; exact Option.some.inj hgF0
-      subst hsame
+    · intro F hF hlt N N' hN hN'
+      obtain ⟨Fn, hgF, hne, hFnp, hg1, hg2, hrlt, hrin, rn, hgr, hrnp⟩ := hFs F hF
       obtain ⟨N2, rfl⟩ : ∃ N2, N = N2 + 2 := ⟨N - 2, by omega⟩
       obtain ⟨N1', rfl⟩ : ∃ N1', N' = N1' + 1 := ⟨N' - 1, by omega⟩
-      have hU : memberGraph dag S Fs (FKey.part F (ixOf Fn index)) =
-          some (Tsk.alias (FKey.part (Fn.members.headD 0) (ixOf Fn index))) := by
+      have hU : memberGraph dag S Fs (FKey.part F index) =
+          some (Tsk.alias (FKey.part (Fn.members.headD 0) index)) := by
         simp only [memberGraph, hdisj F hF, hF, if_true, if_false, hgF]
       rw [run_defined I g inp (N2+1) _ _ hg1]
       show run I g inp (N2+1) (FKey.top F) = _
       rw [run_defined I g inp N2 _ _ hg2, run_defined I _ _ N1' _ _ hU]
-      show run I g inp N2 (FKey.part (Fn.members.headD 0) (ixOf Fn index)) =
-        run I (memberGraph dag S Fs) (fun k => some (ev k)) N1' (FKey.part (Fn.members.headD 0) (ixOf Fn index))
-      rw [← ixOf_npart hrnp index]
+      show run I g inp N2 (FKey.part (Fn.members.headD 0) index) =
+        run I (memberGraph dag S Fs) (fun k => some (ev k)) N1' (FKey.part (Fn.members.headD 0) index)
       rcases hrin with hrS | hrF
-      · exact ihS _ hrS (by omega) rn hgr N2 N1' (by omega) (by omega)
-      · exact ihF _ hrF (by omega) rn hgr N2 N1' (by omega) (by omega)
+      · have := ihS _ hrS (by omega) rn hgr N2 N1' (by omega) (by omega)
+        rw [ixOf_full hrnp hi] at this
+        exact this
+      · exact ihF _ hrF (by omega) N2 N1' (by omega) (by omega)
 
 /-! ### the theorem -/
 
@@ -839,18 +804,17 @@ theorem fused_task_correct (I : Interp) (dag : Dag) (f : Node) (index : Nat) (ev
     | some g => simp only [hg, decide_eq_true_eq] at hself0; rw [hself0]
   have L := levelOK_spec hlevel
   have hmem := membersOK_spec hmembers
-  have heff := eff_top hi
-  have hgraph : ∀ w ∈ coreWrites dag (f.name+1) index f, fusedGraph dag f index w.1 = some w.2 :=
-    fused_lookup dag index f.name f hlevel hi hself
+  have hlook := fused_lookup dag index f.name f hlevel hself
+  have hgraph : ∀ w ∈ coreWrites dag index (f.name+1) f, fusedGraph dag f index w.1 = some w.2 := hlook
   obtain ⟨hrlt, hrin, rn, hgr, hrnp⟩ := head_info dag f.npart f.name f hlevel
   -- the top key
   have htop : fusedGraph dag f index (FKey.top f.name) =
       some (Tsk.alias (FKey.part (f.members.headD 0) index)) :=
     hgraph (FKey.top f.name, _) (by simp [coreWrites])
   have hltS : ∀ m ∈ flat dag (f.name + 1) f, m < f.name :=
-    fun m hm => inner_lt dag _ f.npart f hlevel m (flat_sub_inner dag _ f m hm)
+    fun m hm => inner_lt dag f.npart _ f hlevel m (flat_sub_inner dag _ f m hm)
   have hltF : ∀ F ∈ nested dag (f.name + 1) f, F < f.name :=
-    fun F hF => inner_lt dag _ f.npart f hlevel F (nested_sub_inner dag _ f F hF)
+    fun F hF => inner_lt dag f.npart _ f hlevel F (nested_sub_inner dag _ f F hF)
   have key := members_eval I dag f index (flat dag (f.name + 1) f) (nested dag (f.name + 1) f)
     (fusedGraph dag f index) (phInputs (fusedArgs dag f index) ev) ev hmem L.kall hi ?_ ?_ ?_ f.name
   · obtain ⟨keyS, keyF⟩ := key
@@ -858,37 +822,34 @@ theorem fused_task_correct (I : Interp) (dag : Dag) (f : Node) (index : Nat) (ev
     obtain ⟨N1, rfl⟩ : ∃ N1, N = N1 + 1 := ⟨N - 1, by omega⟩
     rw [run_defined I _ _ N1 _ _ htop]
     show run I (fusedGraph dag f index) (phInputs (fusedArgs dag f index) ev) N1 (FKey.part (f.members.headD 0) index) = _
-    have e := ixOf_full hrnp hi
     rcases hrin with hrS | hrF
     · have := keyS _ hrS (hltS _ hrS) rn hgr N1 N' (by omega) hN'
-      rw [e] at this
+      rw [ixOf_full hrnp hi] at this
       exact this
-    · have := keyF _ hrF (hltF _ hrF) rn hgr N1 N' (by omega) hN'
-      rw [e] at this
-      exact this
+    · exact keyF _ hrF (hltF _ hrF) N1 N' (by omega) hN'
   · intro m hm mn hgm
     obtain ⟨mn', M⟩ := hmem m hm
     rw [M.node] at hgm; cases hgm
-    have := hgraph _ (flat_core dag index _ f.npart index f hlevel heff m hm mn M.node)
-    simp only [M.name] at this
+    have := hgraph _ (flat_core dag index _ f m hm mn M.node)
+    simp only [plainWrite, M.name] at this
     exact this
   · intro F hF
-    obtain ⟨Fn, NI⟩ := nested_info dag index _ f.npart index f hlevel heff F hF
-    exact ⟨Fn, NI.node, NI.fused, hgraph _ NI.alias_write, hgraph _ NI.top_write, NI.head_lt,
+    obtain ⟨Fn, NI⟩ := nested_info dag index f.npart _ f hlevel F hF
+    exact ⟨Fn, NI.node, NI.fused, NI.npart, hgraph _ NI.alias_write, hgraph _ NI.top_write, NI.head_lt,
       NI.head_in, NI.head_np⟩
   · intro d hd hdS M hM
-    rw [show fusedGraph dag f index = lastWrite (coreWrites dag (f.name+1) index f ++ phWrites dag f index) from by
+    rw [show fusedGraph dag f index = lastWrite (coreWrites dag index (f.name+1) f ++ phWrites dag f index) from by
       unfold fusedGraph; rw [writes_succ]]
-    obtain ⟨j, hl, harg⟩ := ph_lookup dag f index (coreWrites dag (f.name+1) index f) d hd
+    obtain ⟨j, hl, harg⟩ := ph_lookup dag f index (coreWrites dag index (f.name+1) f) d hd
     obtain ⟨M0, rfl⟩ : ∃ M0, M = M0 + 1 := ⟨M - 1, by omega⟩
     rw [run_defined I _ _ M0 _ _ hl]
-    show run I (lastWrite (coreWrites dag (f.name+1) index f ++ phWrites dag f index))
+    show run I (lastWrite (coreWrites dag index (f.name+1) f ++ phWrites dag f index))
       (phInputs (fusedArgs dag f index) ev) M0 (FKey.ph j) = _
-    have hnone : lastWrite (coreWrites dag (f.name+1) index f ++ phWrites dag f index) (FKey.ph j) = none := by
+    have hnone : lastWrite (coreWrites dag index (f.name+1) f ++ phWrites dag f index) (FKey.ph j) = none := by
       apply lastWrite_none
       intro b hb
       rcases List.mem_append.mp hb with hb | hb
-      · exact core_noph_key dag f.npart index _ f hlevel b hb j
+      · exact core_noph_key dag index f.npart _ f hlevel b hb j
       · intro heq
         obtain ⟨d', _, hk⟩ := phWrites_key hb
         obtain ⟨i, hi'⟩ := argKey_name dag f index d'
